@@ -438,6 +438,8 @@ impl Terminal for UnixTerminal {
                 let tee = self.tee.as_mut();
                 let send = self.write_queue.consume_with(|slice| {
                     let size = guard_io(self.tty.write(slice), 0)?;
+                    #[cfg(feature = "verif-hooks")]
+                    verif_c16::record(slice.len(), size);
                     tee.map(|tee| tee.write(&slice[..size])).transpose()?;
                     Ok::<_, Error>(size)
                 })?;
@@ -779,3 +781,6 @@ impl PollEvents<'_> {
         self.matched.len()
     }
 }
+
+#[cfg(feature = "verif-hooks")]
+pub mod verif_c16;
